@@ -8,6 +8,7 @@ import CallbagModel.Inv.ForEach
 import CallbagModel.Inv.FromIter
 import CallbagModel.Inv.Fuse
 import CallbagModel.Inv.Merge
+import CallbagModel.Inv.MonSound
 import CallbagModel.Inv.Readable
 import CallbagModel.Inv.Relay
 import CallbagModel.Inv.Share
